@@ -8,11 +8,11 @@ META = dict(
     bounds='2 concurrent callers on one vCPU, <= 3 responses in any order (outstanding tags, an unknown tag), blocking points inside do_completion / do_collect (symbolic), per-call deadline never / finite, <= 10 slices',
     outside='StubImpl / Skeleton (rpc.cpp) and real sockets; more callers; duplicate tags and stream errors (separate thorough jobs); mutex / cv / thread_interrupt internals (contracts)',
     assumptions=['contract-level sync layer rt/ksync.h', 'callbacks are dispatched through a harness-side specialisation of the Callback delegate (direct calls instead of function pointers)',
-                 'unordered_map bucket policy stand-in (one growth to 5 buckets)', 'operator new never fails; call contexts live in heap blocks freed when the call returns'],
+                 'std::unordered_map<tag, context*> replaced by a 4-slot array stand-in with the same find / insert / erase contract', 'operator new never fails; call contexts live in heap blocks freed when the call returns'],
 )
 SRC = 'C11/h_ooo.cpp'
 def jobs(tier):
     q = tier == 'quick'
     J = []
-    J.append(ksjob('ooo_2callers', SRC, 2, 7, ['NRESP=2'], desc='2 callers, <= 2 responses, symbolic order / deadlines, blocking point inside do_collect', stuck_legal=True, timeout=1200, unwind=3, mem_gb=10))
+    J.append(ksjob('ooo_2callers', SRC, 2, 7, ['NRESP=2'], desc='2 callers, <= 2 responses, symbolic order / deadlines, blocking point inside do_collect', stuck_legal=True, timeout=1200, unwind=5, mem_gb=10))
     return J
